@@ -197,7 +197,7 @@ func H_C18_concat() {
 	for i := 0; i < n; i++ {
 		if numbers {
 			d := VByte("d")
-			VAssume(d <= 9)
+			VAssume(d <= 2)
 			model = append(model, string([]byte{'0' + d}))
 			tb.RawSetInt(i+1, LNumber(int(VConc(int(d)))))
 			continue
@@ -212,13 +212,13 @@ func H_C18_concat() {
 	args := []LValue{tb, LString(sep)}
 	if mode >= 1 {
 		i = int(VI32("i"))
-		VAssume(VAnd(i >= 1, i <= n+1))
+		VAssume(VAnd(i >= -1, i <= n+2))
 		args = append(args, LNumber(i))
 		i = VConc(i)
 	}
 	if mode == 2 {
 		j = int(VI32("j"))
-		VAssume(VAnd(j >= 0, j <= n))
+		VAssume(VAnd(j >= -1, j <= n+2))
 		args = append(args, LNumber(j))
 		j = VConc(j)
 	}
@@ -227,6 +227,12 @@ func H_C18_concat() {
 		L.Push(a)
 	}
 	err := L.PCall(len(args), 1, nil)
+	if i <= j && (i < 1 || j > n) {
+		// a non-empty range that leaves the list reads nil: ltablib.c raises "invalid value (nil) at index ..."
+		VAssert(err != nil, "concat: a range that reaches outside the list is an error")
+		VReach("end")
+		return
+	}
 	VAssert(err == nil, "concat: succeeds for positions inside the list")
 	want := ""
 	for k := i; k <= j; k++ {
